@@ -125,6 +125,7 @@ def main() -> int:
     except Exception:  # noqa: BLE001
         print("HARNESS-ERROR cannot import property module\n" + core.format_exc())
         return 2
+    core.preload()
     known = core.load_known(prop)
 
     if args.replay:
